@@ -1,4 +1,5 @@
 import QuicProofs.Lemmas.LocalIds
+import QuicProofs.Lemmas.LocalIdsMono
 import QuicProofs.Lemmas.PeerIds
 import QuicProofs.Lemmas.PeerView
 /-
@@ -62,6 +63,29 @@ theorem retire_prior_to_le_next_seq {p : Nat} (hp : 1 ≤ p) {s : LocalIds.State
   obtain ⟨h1, _, h3, h4, _⟩ := reachable_invs hp h
   refine ⟨h1.rptLe, fun f hf => ⟨h4.framesRpt f hf, ?_⟩⟩
   exact h3.regBelow _ (h3.framesReg f hf)
+
+/-- **retire_prior_to_le_seq_partial** ("never asks to retire IDs beyond the one it is issuing", RFC 9000 §19.15):
+    in every history whose registrations respect "lifetimes do not shrink" (`Admissible`: the expiration handed to
+    `register_connection_id` is not earlier than that of any id still registered — what a `connection_id::Generator`
+    with a constant `lifetime()` produces), every NEW_CONNECTION_ID frame has `retire_prior_to ≤ sequence_number`.
+    Without that hypothesis the statement is false (next theorem), hence `_partial`. -/
+theorem retire_prior_to_le_seq_partial {p : Nat} {iid : Nat} {m : List (LocalIds.Cid × Nat)} {hid : LocalIds.Cid}
+    {e : Option Nat} {t : LocalIds.Token} {rot : Bool} {s0 : LocalIds.State}
+    (hnew : LocalIds.new iid m hid e t rot = some s0) (ops : List LocalIds.Op) (hadm : Admissible p s0 ops) :
+    ∀ f ∈ LocalIds.emitted (LocalIds.run p s0 ops), f.rpt ≤ f.seq :=
+  (inv5_run p (inv_new (p := p) hnew).1 (inv5_new hnew) ops hadm).framesOk
+
+/-- non-vacuity: an admissible history with a rotation and an expiry that emits frames with Retire Prior To 1 and 3 -/
+example : Admissible 3 ((LocalIds.new 7 [] [0xaa] (some 60000000) [1] true).get (by decide))
+    [.setLimit, .register [0xbb] (some 60000000) [2], .onHandshakeConfirmed, .onTransmit .none 5 4,
+     .onTimeout 30000000, .register [0xcc] (some 90000000) [3], .onTransmit .none 6 4] ∧
+    (LocalIds.emitted (LocalIds.run 3 ((LocalIds.new 7 [] [0xaa] (some 60000000) [1] true).get (by decide))
+    [.setLimit, .register [0xbb] (some 60000000) [2], .onHandshakeConfirmed, .onTransmit .none 5 4,
+     .onTimeout 30000000, .register [0xcc] (some 90000000) [3], .onTransmit .none 6 4])).map (fun f => (f.seq, f.rpt))
+      = [(1, 1), (2, 2)] := by
+  refine ⟨?_, by decide⟩
+  simp only [Admissible, MonoOk, and_true, true_and]
+  decide
 
 /-- The full clause "never asks to retire IDs beyond the one it is issuing" (`retire_prior_to ≤ seq` in every
     NEW_CONNECTION_ID frame, RFC 9000 §19.15) is FALSE of the registry when the expirations it is given are not
